@@ -116,6 +116,6 @@ NOT_APPLICABLE = {
            "double-precision evaluation quantifies over runtime values; no sound static argument in reach bounds "
            "float32 rounding through 2(1-cos t) at t~1e-4, so static analysis cannot address it here",
 }
-for _p in [ "C08", "C09", "C10", "C11", "C12", "C13", "C14", "C15", "C16",
-           "C17", "C18", "C19", "C20"]:
-    NOT_APPLICABLE[_p] = PENDING
+for _p in ["C%02d" % k for k in range(1, 21)]:
+    if _p not in CLAIMS and _p not in NOT_APPLICABLE:
+        NOT_APPLICABLE[_p] = PENDING
